@@ -21,6 +21,8 @@ ASSUMPTIONS = [
     'messages of injected exceptions are unique and differ from the nominal message in their first four characters',
 ]
 
+SUBCLASSES = {'LookupError': ['KeyError', 'IndexError'], 'ArithmeticError': ['ZeroDivisionError'],
+              'ValueError': ['SimValueSub'], 'RuntimeError': ['RecursionError']}
 TB_KINDS_ALL = ['tb', 'tb', 'tbstack', 'tbbare', 'tbell', 'tbwrongmsg', 'tbwrongtype', 'tbdetail', 'tbdots', 'tbdots',
                 'tbdotssuffix', 'tbdotsonly']
 FLAGSETS = [[], [], [], [['+', 'IGNORE_EXCEPTION_DETAIL', None]], [['-', 'ELLIPSIS', None]],
@@ -32,6 +34,7 @@ def generate(rng, tier):
                           p_helper=0.1, tb_kinds=list(TB_KINDS_ALL))
     cfg['n_modules'] = (1, 1)
     cfg['n_funcs'] = (1, 3)
+    cfg['forms'] = list(gen.SIMPLE_FORMS) + ['chainexc', 'chainexc']
     if rng.random() < 0.15:
         cfg['async_forms'] = ['await', 'awaitexpr']
         cfg['p_async'] = 0.3
@@ -81,6 +84,11 @@ def generate(rng, tier):
     plan = []
     execs = common.predicted_execs(world, ops)
     used = set()
+    nominal_exc = {}
+    for dtid, dt, mod in W.iter_doctests(world):
+        for st in dt['steps']:
+            if st.get('exc') and st.get('pts'):
+                nominal_exc[st['pts'][1 if st['form'] == 'chainexc' else st.get('raise_at', 0)]] = st['exc']['exc']
     n_faults = rng.choice([0, 1, 1, 1, 2])
     for _ in range(n_faults):
         dtid, k, opidx = rng.choice(execs)
@@ -102,6 +110,10 @@ def generate(rng, tier):
             f['kind'] = 'raise'
             f['exc'] = rng.choice(['ValueError', 'ZeroDivisionError', 'RuntimeError', 'AssertionError', 'KeyError',
                                    'SimError', 'mod:%s.SimLocalError' % modname, 'LookupError'])
+            nom = nominal_exc.get(p['pid'])
+            if nom in SUBCLASSES and rng.random() < 0.6:
+                # a proper subclass of the class the want names: still another type
+                f['exc'] = rng.choice(SUBCLASSES[nom])
             f['msg'] = rng.choice(['other ' + p['pid'], '', 'other: colon ' + p['pid'], 'other\nmulti ' + p['pid'],
                                    'xyz...' + p['pid'], 'other %s went wrong.' % p['pid'], 'other %s in file data.txt' % p['pid']])
             f['depth'] = rng.choice([0, 0, 2])
